@@ -133,7 +133,13 @@ def first_class_stream(ctx, spec):
     """a spec-reading subroutine used as a first-class value (ilist.map): real code against real code"""
     global SPEC_SLOT
     SPEC_SLOT = spec
-    mod = T.load_source(FIRST_CLASS_SRC, "c06fc")
+    try:
+        mod = T.load_source(FIRST_CLASS_SRC, "c06fc")
+    except Exception as e:  # noqa: BLE001
+        # the same source without the `arch_spec=` options compiles (it is what the reference kernels are)
+        ctx.fail({"source": FIRST_CLASS_SRC},
+                 f"kernels that use spec-reading subroutines as first-class values do not compile with a spec: {type(e).__name__}: {str(e)[:200]}")
+        return
     for n in (0, 1, 3):
         for a, b, what in ((mod.plain, mod.specialised, "passed to ilist.map"), (mod.plain_direct, mod.specialised_direct, "called directly"),
                            (mod.plain2, mod.specialised2, "passed to ilist.map by a subroutine that is itself passed to ilist.map"),
@@ -153,6 +159,62 @@ def first_class_stream(ctx, spec):
                          key="F22-first-class-method-not-injected" if what == "passed to ilist.map" and r2 == "err" else None)
 
 
+SINGLE_KIND_SRC = '''from bloqade.shuttle import spec
+from bloqade.shuttle.prelude import move
+from harness.props import c06 as _C06
+
+@move
+def leaf_{k}():
+    return {look}
+
+@move
+def rec_{k}(i: int):
+    if i <= 0:
+        return {look}
+    return rec_{k}(i - 1)
+
+@move
+def plain_{k}(n: int):
+    return (leaf_{k}(), rec_{k}(n))
+
+@move(arch_spec=_C06.SPEC_SLOT)
+def folded_{k}(n: int):
+    return (leaf_{k}(), rec_{k}(n))
+
+@move(arch_spec=_C06.SPEC_SLOT, fold=False)
+def unfolded_{k}(n: int):
+    return (leaf_{k}(), rec_{k}(n))
+'''
+
+
+def single_kind_stream(ctx, spec):
+    """kernels whose ONLY spec lookups are of one kind and sit in subroutines (plain and recursive): nothing else in the call
+    graph gives the injection pass a reason to re-link the caller to the specialised subroutines"""
+    global SPEC_SLOT
+    SPEC_SLOT = spec
+    looks = {"special": 'spec.get_special_grid(grid_id="S")', "trap": 'spec.get_static_trap(zone_id="A")',
+             "intc": 'spec.get_int_constant(constant_id="n2")', "floatc": 'spec.get_float_constant(constant_id="fh")'}
+    for k, look in looks.items():
+        src = SINGLE_KIND_SRC.replace("{k}", k).replace("{look}", look)
+        try:
+            mod = T.load_source(src, "c06k")
+        except Exception as e:  # noqa: BLE001
+            ctx.fail({"source": src}, f"a kernel whose only lookups are {k} lookups in subroutines does not compile with the spec: "
+                                      f"{type(e).__name__}: {str(e)[:160]}")
+            continue
+        for n in (0, 2):
+            ref = EV.run_with_events(getattr(mod, f"plain_{k}"), spec, (n,))
+            r1 = "err" if ref.error else f"ok {ref.result!r}"
+            for variant in ("folded", "unfolded"):
+                got = EV.run_with_events(getattr(mod, f"{variant}_{k}"), spec, (n,), plain=True)
+                r2 = "err" if got.error else f"ok {got.result!r}"
+                ctx.count("single_kind_subroutine_runs")
+                if r1 != r2:
+                    ctx.fail({"source": src, "kernel": f"{variant}_{k}", "args": [n]},
+                             f"only {k} lookups, all in subroutines: the specialised kernel run without a spec gives {r2[:160]}, the "
+                             f"unspecialised kernel against the spec gives {r1[:160]}")
+
+
 def mapping_tables_stream(ctx, spec):
     """the spec's constant tables may be any mapping - here dict subclasses that answer every key (`defaultdict`): a name that
     is not *in* the table is absent on both routes"""
@@ -165,7 +227,10 @@ def mapping_tables_stream(ctx, spec):
     floats = collections.defaultdict(float, spec.float_constants)
     dd = dataclasses.replace(spec, int_constants=ints, float_constants=floats)
     SPEC_SLOT = dd
-    mod = T.load_source(FIRST_CLASS_SRC, "c06dd")
+    try:
+        mod = T.load_source(FIRST_CLASS_SRC, "c06dd")
+    except Exception:  # noqa: BLE001
+        return      # reported by first_class_stream
     for name in ("plain_absent", "plain_absent_sub"):
         base = getattr(mod, name)
         ref = EV.run_with_events(base, dd, (1,))
@@ -256,6 +321,7 @@ def run(ctx):
         raise HarnessFault("generator degenerate: >30% of generated programs do not compile")
     first_class_stream(ctx, sp_list[0])
     mapping_tables_stream(ctx, sp_list[0])
+    single_kind_stream(ctx, sp_list[0])
     m_spec = ctx.driver(lines_spec)
     m_inj = ctx.driver(lines_inj)
     ctx.traces_validated = len(rows)
